@@ -62,6 +62,13 @@ class SymMode:
     def const(self, x):
         return SV.lift(x)
 
+    def generator(self):
+        """The `generator` argument handed to a game generator: every draw a fresh symbol (support only)."""
+        from . import rng
+        g = rng.SymGenerator("arg")
+        g.is_argument = True
+        return g
+
     def nonempty(self, it):
         from . import guarded
         if not isinstance(it, (guarded.GList,)):
@@ -333,6 +340,14 @@ class NativeMode:
 
     def const(self, x):
         return float(x)
+
+    def generator(self):
+        import numpy as np
+        from rt.replay_rng import ReplayGenerator, draws_from_inputs
+        d = draws_from_inputs(self.given)
+        if d:
+            return ReplayGenerator(d)
+        return np.random.default_rng(int(self.given.get("seed", 0)))
 
     def nonempty(self, it):
         return len(list(it)) > 0
